@@ -424,6 +424,39 @@ def normalise_cli(text):
     return "\n".join(head), rest
 
 
+def cli_env(hs, scratch):
+    from .. import loader
+    env = dict(os.environ, PYTHONHASHSEED=str(0 if hs == "mtime" else hs), PYTHONPATH=loader.repo_dir(),
+               PYTHONIOENCODING="utf-8")
+    if hs not in (0, "mtime"):
+        # other aspects of the environment that are not input: terminal size, home directory, time zone,
+        # interpreter optimisation level (asserts stripped)
+        k = hs % 4
+        env.update({"COLUMNS": str([40, 80, 200, 10][k]), "LINES": "7", "HOME": scratch,
+                    "TZ": ["UTC", "Asia/Tokyo", "America/New_York", "UTC"][k]})
+        if k == 1:
+            env["PYTHONOPTIMIZE"] = "1"
+    env.pop("TRAVIS", None)
+    env.pop("FORCE_COVERAGE", None)
+    return env
+
+
+def run_twice(scratch, argv, out_name):
+    """The same command twice in a row in one directory (relative paths, -o): -> [(status, normalised file text)] * 2."""
+    env = cli_env(0, scratch)
+    outs = []
+    for _ in range(2):
+        p = subprocess.run([PYTHON, "-m", "json_to_models", *argv], capture_output=True, env=env, timeout=180, cwd=scratch)
+        try:
+            with open(os.path.join(scratch, out_name), encoding="utf-8") as fh:
+                text = fh.read()
+        except OSError:
+            text = ""
+        head, rest = normalise_cli(text)
+        outs.append((p.returncode, head if isinstance(head, str) else "\n".join(head), rest))
+    return outs
+
+
 def cli_layer(ctx, rep, workloads, n):
     """The real CLI as a subprocess (`python -m json_to_models`, real files in one real directory, real clock) under 4
     hash seeds per workload: stdout must be identical except the timestamp line of the header.  Samples are given as
@@ -504,23 +537,15 @@ def cli_layer(ctx, rep, workloads, n):
                         with open(full, encoding="utf-8") as fh:
                             fm[rel] = fh.read()
             file_maps[j] = fm
-            hs_list = [0] + [rng.randrange(1, 2 ** 32) for _ in range(3)]
+            # (the three non-zero seeds are made to select the environment variants 1, 2, 3 in this order, so that every
+            # workload is run once with asserts stripped)
+            hs_list = [0] + [rng.randrange(1, 2 ** 30) * 4 + k for k in (1, 2, 3)]
             for hs in hs_list:
                 tasks.append((j, hs, argv))
 
         def one(task):
             j, hs, argv = task
-            env = dict(os.environ, PYTHONHASHSEED=str(0 if hs == "mtime" else hs), PYTHONPATH=loader.repo_dir(),
-                       PYTHONIOENCODING="utf-8")
-            if hs not in (0, "mtime"):
-                # other aspects of the environment that are not input: terminal size, home directory, time zone,
-                # interpreter optimisation level (asserts stripped)
-                k = hs % 4
-                env.update({"COLUMNS": str([40, 80, 200, 10][k]), "LINES": "7", "HOME": scratch, "TZ": ["UTC", "Asia/Tokyo", "America/New_York", "UTC"][k]})
-                if k == 1:
-                    env["PYTHONOPTIMIZE"] = "1"
-            env.pop("TRAVIS", None)
-            env.pop("FORCE_COVERAGE", None)
+            env = cli_env(hs, scratch)
             p = subprocess.run([PYTHON, "-m", "json_to_models", *argv], capture_output=True, env=env,
                                timeout=180, cwd=scratch)
             return j, hs, argv, p.returncode, normalise_cli(p.stdout.decode("utf-8", "replace"))
@@ -546,6 +571,26 @@ def cli_layer(ctx, rep, workloads, n):
         with ThreadPoolExecutor(max_workers=max(2, ctx.jobs)) as ex:
             results2 = list(ex.map(one, [(j, "mtime", first_task[j][2]) for j in touched]))
 
+        # third phase: the same command twice in a row with RELATIVE paths and -o (the second run finds the output file
+        # of the first one): the two files may differ only in the timestamp line
+        def twice(j):
+            argv = [os.path.relpath(a, scratch) if a.startswith(scratch + os.sep) else a for a in first_task[j][2]]
+            argv += ["-o", f"out_w{j}.py"]
+            return j, argv, run_twice(scratch, argv, f"out_w{j}.py")
+
+        rerun = [j for j in sorted(first_task) if j % 4 == 0]
+        with ThreadPoolExecutor(max_workers=max(2, ctx.jobs)) as ex:
+            results3 = list(ex.map(twice, rerun))
+        for j, argv, outs in results3:
+            if outs[0] != outs[1]:
+                rep.violation("cli-subprocess-twice:" + seeds.digest(picks[j])[:10], {
+                    "kind": "cli-subprocess-twice", "files": file_maps[j], "scratch": scratch, "argv": argv,
+                    "out_name": f"out_w{j}.py",
+                    "clause": "the same command run twice writes the same file except the timestamp line",
+                }, "the same real CLI command (relative paths, -o) run twice in one directory writes different files: "
+                   + first_diff({"text": outs[0][1] + "\n" + outs[0][2]}, {"text": outs[1][1] + "\n" + outs[1][2]}))
+                return len(results)
+
         by = {}
         for j, hs, argv, rc, norm in results:
             by.setdefault(j, []).append((hs, argv, rc, norm))
@@ -563,7 +608,7 @@ def cli_layer(ctx, rep, workloads, n):
                         if o[0] == "mtime" else f"real CLI subprocess differs between PYTHONHASHSEED={base[0]} and {o[0]}: ")
                        + first_diff({"text": base[3][1]}, {"text": o[3][1]}))
                     return len(results)
-        return len(results) + len(results2)
+        return len(results) + len(results2) + 2 * len(results3)
     finally:
         shutil.rmtree(scratch, ignore_errors=True)
 
@@ -612,6 +657,25 @@ def clock_layer(ctx, rep, n):
 
 
 def replay(ctx, payload):
+    if payload.get("kind") == "cli-subprocess-twice":
+        scratch = payload.get("scratch")
+        try:
+            os.makedirs(scratch)
+        except (OSError, TypeError):
+            scratch = tempfile.mkdtemp(prefix="j2m-c06r-", dir="/dev/shm" if os.path.isdir("/dev/shm") else None)
+        try:
+            for rel, text in payload["files"].items():
+                fn = os.path.join(scratch, rel)
+                os.makedirs(os.path.dirname(fn), exist_ok=True)
+                with open(fn, "w", encoding="utf-8") as fh:
+                    fh.write(text)
+            outs = run_twice(scratch, payload["argv"], payload["out_name"])
+            if outs[0] != outs[1]:
+                return True, "the same command run twice writes different files: " + \
+                    first_diff({"text": outs[0][1] + "\n" + outs[0][2]}, {"text": outs[1][1] + "\n" + outs[1][2]})
+            return False, "both runs wrote the same file"
+        finally:
+            shutil.rmtree(scratch, ignore_errors=True)
     if payload.get("kind") == "cli-subprocess":
         # NOTE: exact for hash-seed dependence; a difference caused by uncontrolled real threads inside the CLI process
         # may need several attempts (the replay tries 3 times)
@@ -637,9 +701,8 @@ def replay(ctx, payload):
                         random.Random(len(outs) + 7).shuffle(rels)
                         for k, rel in enumerate(rels):
                             os.utime(os.path.join(scratch, rel), (1_600_000_000 + 1000 * k,) * 2)
-                    env = dict(os.environ, PYTHONHASHSEED=str(0 if hs == "mtime" else hs), PYTHONPATH=loader.repo_dir(),
-                               PYTHONIOENCODING="utf-8")
-                    p = subprocess.run([PYTHON, "-m", "json_to_models", *argv], capture_output=True, env=env, timeout=180, cwd=scratch)
+                    p = subprocess.run([PYTHON, "-m", "json_to_models", *argv], capture_output=True, env=cli_env(hs, scratch),
+                                       timeout=180, cwd=scratch)
                     outs.append((p.returncode, normalise_cli(p.stdout.decode("utf-8", "replace"))))
                 if outs[0] != outs[1]:
                     return True, "real CLI subprocess output differs between the two hash seeds: " + \
